@@ -3,6 +3,7 @@ package main
 import (
 	"encoding/json"
 	"fmt"
+	"runtime"
 	"strings"
 	"time"
 
@@ -49,6 +50,8 @@ func c01Jobs(tier string) []string {
 		add(base+",mtu=76,aw=96,issa=4294967276,b=1", 4)
 		add(base+",aw=2x1400,v6=1,mtu=1280,b=1", 2)
 		add(base+",mtu=76,aw=400,rcvbuf=100,b=1", 4)
+		add("or=s,bw=300,close=none,mtu=576,aw=2x500,b=1", 2)
+		add("or=s,bw=24,close=none,mtu=76,aw=48,b=2", 8)
 		for _, j := range rawJobsC01(tier) {
 			jobs = append(jobs, j)
 		}
@@ -105,6 +108,7 @@ func c01Run(job, tier string, deadline time.Time) *engine.Result {
 	st := engine.ExploreEnv(job, func(prefix []int) *engine.EnvRun { return RunPair(cfg, prefix) }, engine.EnvCfg{Budget: cfg.Budget, Deadline: deadline, ShardI: i, ShardN: n})
 	st.Into(r)
 	r.Bound = fmt.Sprintf("deviation budget %d", cfg.Budget)
+	r.Recycle = runtime.NumGoroutine() > 100
 	return r
 }
 
